@@ -21,20 +21,20 @@ reg('C06', 'static analysis: future typestate -- every writer role of the waitin
     'For all interleavings of resume / interrupt / awaitable completion: a writer that raises or drops when it comes second exists iff a site is '
     'unguarded or guarded-drop. Liveness beyond these conflicts is not decided.', NOTE)
 reg('C13', 'static analysis: dispatch-ladder exhaustiveness over Command subclasses, forwarding completeness (every captured constructor field '
-    'reaches the next state with the right star-kind), save/load key symmetry of the state payloads, decision table for resume-value delivery, copy-at-save provenance of the pending call\'s arguments',
+    'reaches the next state with the right star-kind), save/load key symmetry of the state payloads, decision table for resume-value delivery, copy-at-save provenance of the pending call\'s arguments; event-guard isinstance rule; **kwargs capture by named parameters on the forwarding chain; stored-command completeness; NULL sentinel equality',
     'For all argument choices: a captured field that is never forwarded, a command without a branch, a wrong constant label or a payload that is '
     'not persisted is found from the shape of the code.', NOTE)
-reg('C20', 'static analysis: exactly-once typestate by enumeration of every acyclic CFG path of each adapter callback; run-once guard facts',
+reg('C20', 'static analysis: exactly-once typestate by enumeration of every acyclic CFG path of each adapter callback; run-once guard facts; cancellation-delivered rule (every await / result() in an adapter is covered by a CancelledError handler that resolves the output future); capture_exceptions with ignore= is not a container',
     'For every nesting/outcome/order: each path through each adapter resolves the output future exactly once (result, captured exception, cancel '
     'or re-registration); cancelled() is tested before result(); CancellableAction runs only while pending, inside capture_exceptions(self).', NOTE)
 
 reg('C02', 'static analysis: dispatch-ladder exhaustiveness (entering/entered hooks per state), writer ownership of the process future, CFG '
     'exactly-once on every non-raising path (future resolution, terminal listener event, close), provenance of reported values, '
-    'call-graph reachability of a resolver for every future step() blocks on, per-item handler isolation of the cleanups',
+    'call-graph reachability of a resolver for every future step() blocks on, per-item handler isolation of the cleanups; hooks-outlive-transitions (the callback table is cleared only where the process is known terminated), in-flight step release (FUT wait-release over the state\'s own awaits), listener-set idempotence',
     'For all schedules: who may resolve the process future and with what, one terminal notification per path, on_terminated iff terminal, cleanups '
     'at most once, and every way into a terminal state releases the stepping task. Agreement of the views at every point is otherwise not decided.', NOTE)
 reg('C05', 'static analysis: CFG dominance (pause gate before the state\'s execute), must-fact guard ladder of pause(), must-pass-through of the '
-    'deferred step\'s transition, save-before-overwrite / restore pairing of the status, resolve-and-clear discipline of the pause future',
+    'deferred step\'s transition, save-before-overwrite / restore pairing of the status, resolve-and-clear discipline of the pause future; must-fact \'not paused\' at the execute site (gate re-checked after every wake-up); withdrawn-pause and externally-cancelled-action obligations at the runner sites of step()',
     'For all placements of pause/play: nothing runs while paused (gate dominates execute), pause() cannot run in the middle of a step or twice, the '
     'in-flight step is entered, status is restored, play() un-pauses and cancels a pending pause. Equality with the uninterrupted run is not decided.', NOTE)
 
@@ -48,13 +48,13 @@ reg('C08', 'static analysis: stepper persistence table, sibling agreement of cre
     'For every outline and crash point: the interpreter position and live child are persisted under matching keys, the child restored is the one the running '
     'stepper would create, continuations are re-bound by name. That the resumed run equals the reference run is not decided.', NOTE)
 reg('C19', 'static analysis: provenance of the per-class auto_persist set, member-kind tag table (save_members vs _get_value), loader-precedence must-facts, '
-    'CFG must-pass (every return either hands back a context that carries a loader or has consulted the saved state), writer/reader key-path agreement of the meta helpers, error-type discipline of load_object, dispatch over future states',
+    'CFG must-pass (every return either hands back a context that carries a loader or has consulted the saved state), writer/reader key-path agreement of the meta helpers, error-type discipline of load_object, dispatch over future states; persist hook per object, classmethod auto_persist on the class\'s own set, all bases\' members inherited, recreate_from restores declared members, nested saves pass the save context, outcome reads after a cancelled() test',
     'For every Savable shape and loader configuration: tags written are the tags reversed, the loader recorded is found and used as an instance, precedence is '
     'context > saved state > default, unknown classes are ValueError, futures have a branch per state. Value round trip through deepcopy is not decided.', NOTE)
 
 reg('C03', 'static analysis: inter-procedural exception-containment analysis over the resolved call graph (first containing handler / capture_exceptions '
     'on every upward call chain from every uncontrolled call site, with sink classification and task-boundary roots), finally-pairing of '
-    'flags, must-facts on the construction re-raise, provenance of the EXCEPTED state payload, future typestate of the EXCEPTED entry (shared with C02)',
+    'flags, must-facts on the construction re-raise, provenance of the EXCEPTED state payload, future typestate of the EXCEPTED entry (shared with C02); in-flight step release shared with C02; every failure handler of step() builds EXCEPTED; the failing-callback report goes to a reference no sibling clears',
     'For every hook / user function and every occurrence: no exception raised by uncontrolled code can reach a coroutine or done-callback plumpy hands to the '
     'loop, each kind of user code is caught first by the sink the property names, flags are reset on every exit, failure states carry exactly the caught exception.', NOTE)
 reg('C18', 'static analysis: push/restore pairing on the CFG of EVERY function that installs a process stack (restore on every exit, exceptional ones included; copy-on-push, copy-on-pop), ownership of the context variable, scope reachability '
@@ -69,37 +69,37 @@ reg('C09', 'static analysis: CFG path rules on the outline interpreter (first-tr
     'return_ cannot be swallowed below _do_step, a block advances by exactly one finished instruction, a non-None value stops the chain. It does NOT decide the '
     'order of calls over all nested outlines (interpreter correctness).', NOTE)
 reg('C10', 'static analysis: must-facts for the barrier guard (wake-up control-dependent on the awaiting map being empty after the pop), CFG must-pass rules '
-    'for registration and context writes, hand-up rule for nested steppers (the child\'s value reaches _do_step unchanged), exception-containment trace of an awaited failure',
+    'for registration and context writes, hand-up rule for nested steppers (the child\'s value reaches _do_step unchanged), exception-containment trace of an awaited failure; cancellation-delivered typestate for the done-callback; registration on every path and registry indexed by key; outcome read on every path',
     'For every number of awaited items and completion order: the wake-up site is reachable only under "nothing awaited any more", registrations reach the WAITING '
     'state, a failed awaitable becomes the EXCEPTED state. The unguarded future writes are C06\'s findings.', NOTE)
 
 reg('C11', 'static analysis: error-discipline rule on the CFG of every validate*/validator call site (verdict tested on every path, error branch returns/raises it), '
     'provenance of the mapping handed to the in-place default filler, read-only shape of the frozen mappings (bases, mutator ownership), must-facts on '
-    'required_override and default evaluation',
+    'required_override and default evaluation; decision tables over Port.validate / PortNamespace.validate (required, type, validator asked on every accepting path, non-mapping namespace value), sentinel uniqueness, spec-owned default never filled in place',
     'For every spec and input: no validation verdict can be dropped, construction raises on an error, the caller\'s dictionary and raw_inputs are never handed to code '
     'that mutates its argument, Frozendict has no mutator, a default always clears "required". The acceptance function itself is not decided.', NOTE)
 reg('C12', 'static analysis: dominance of every store that can reach the outputs mapping (alias closure through setdefault) by the validation-error test that raises, '
-    'writer ownership of the outputs, provenance of the downgrade state (same result, constant successful=False), must-facts on when spec validation runs',
+    'writer ownership of the outputs, provenance of the downgrade state (same result, constant successful=False), must-facts on when spec validation runs; constraints inherited by on-the-fly sub-namespaces; implicit namespaces independent of the declared port; shared sentinel / non-mapping obligations',
     'For every output spec and emission sequence: nothing is written into the outputs before the verdict was examined, nobody else mutates them, listeners are told exactly '
     'when stored, the downgrade keeps the result and is entered by transition_to. Which values the spec accepts is not decided.', NOTE)
 
 reg('C14', 'static analysis: provenance of what the persisters store and hand out (deep copy / serialisation on save, fresh object on load), sibling agreement '
-    'on one (pid, tag) key function with argument order, handler pairing for idempotent delete',
+    'on one (pid, tag) key function with argument order, handler pairing for idempotent delete; injectivity of the file-name function; copy-protocol overrides return new objects',
     'For every history: isolation of a snapshot from the live process AND from a process continued from a loaded bundle is a provenance fact of save/load; save, '
     'load and delete address the same key; deletes tolerate a missing key and touch one key/pid. Observational equivalence of the two persisters is not decided.', NOTE)
 reg('C15', 'static analysis: provenance of every value stored into the destination namespace (copy.copy/deepcopy of the source port; fresh container for a shallow '
     'copy), segment-exactness of every rule/name comparison (equality, membership or startswith of a separator-terminated prefix), dominance of the mutual-exclusion '
-    'test over all mutations, forwarding of rules and options',
+    'test over all mutations, forwarding of rules and options; decision table over absorb (skipped iff excluded / not included; empty include selects nothing), destination namespace merged not replaced, options dictionary not consumed in place, setters without cross-writes, sibling rejection tests agree',
     'For every port tree and rule set: a prefix comparison that is not separator-terminated, a port stored uncopied, a shared container or dropped/unchecked options '
     'are found from the code. The selected set beyond segment-exactness is not decided.', NOTE)
 
 reg('C16', 'static analysis: dispatch-table comparison of the RPC and broadcast handlers with the direct calls and with MessageBuilder / controllers, sibling '
     'agreement of the two handlers, CFG exactly-once and provenance of the state_changed announcement (sender, <from>.<to> order), handler coverage of the '
-    'tolerated broadcast failures, subscribe/cleanup pairing, regex folding of the broadcast filter, parameter forwarding of LoopCommunicator',
+    'tolerated broadcast failures, subscribe/cleanup pairing, regex folding of the broadcast filter, parameter forwarding of LoopCommunicator; decision-table dispatch (effective call per intent on every path), every message scheduled with its own reply future, cancellation delivered to the reply, subscriptions only for live processes (also after a load)',
     'For every message sequence: each intent maps to the same call with the same arguments as a direct caller\'s; one announcement per transition with the right '
     'subject and sender; tolerated failures are caught; every subscription has its cleanup. Equivalence with the directly controlled twin is not decided.', NOTE)
 reg('C17', 'static analysis: task-type dispatch exhaustiveness with a rejecting fallthrough, key/parameter agreement between the body builders and the handlers they '
     'are **-expanded into, must-pass rejection guards before construction/load, must-facts and ordering for persist-before-run and nowait replies, provenance of '
-    'the loader and load context',
+    'the loader and load context; decision-table task dispatch; class constructed = what this launcher\'s loader returns on every path; snapshot isolation and loader precedence shared with C14 / C19',
     'For every flag combination: a create task cannot step, persist precedes stepping, continue loads exactly (pid, tag), a missing persister rejects before anything '
     'happens, the configured loader is the one used for classes and in the load context.', NOTE)
